@@ -1,11 +1,28 @@
 package ledgersim
 
 import (
+	"bytes"
 	"encoding/json"
 	"fmt"
 
+	"github.com/meshplus/bitxhub/verif/engines/chainsim"
 	"github.com/meshplus/bitxhub/verif/sim"
 )
+
+// A quarter of the C09 and C12 runs are node-level: blocks produced, rolled back and re-executed by the real
+// block executor (engines/chainsim, profiles "C09"/"C12"), because both statements speak about executed
+// blocks; the other runs drive the ledger API directly with synthetic blocks (hist.go).
+func nodeLevel(c json.RawMessage) bool { return bytes.Contains(c, []byte(`"world"`)) }
+
+var histOps = map[string]bool{"block": true, "rollback": true, "reopen": true, "replay": true}
+
+func nodeLevelStep(s json.RawMessage) bool {
+	var st struct {
+		Op string `json:"op"`
+	}
+	_ = json.Unmarshal(s, &st)
+	return !histOps[st.Op]
+}
 
 type Engine struct{}
 
@@ -18,6 +35,9 @@ func (Engine) Generate(prop string, r *sim.Rand, tier string) *sim.Plan {
 	case "C10":
 		return genC10(r, tier)
 	case "C12", "C09":
+		if r.Chance(0.25) {
+			return chainsim.Generate(prop, r, tier)
+		}
 		return genHist(r, tier, prop)
 	case "C11":
 		return genC11(r, tier)
@@ -41,6 +61,9 @@ func (Engine) Execute(prop string, p *sim.Plan, keep bool) (res *sim.Result) {
 	case "C10":
 		return execC10(p, keep)
 	case "C12", "C09":
+		if nodeLevel(p.Config) {
+			return chainsim.Execute(prop, p, keep)
+		}
 		return execHist(prop, p, keep)
 	case "C11":
 		return execC11(p, keep)
@@ -55,6 +78,9 @@ func (Engine) SimplifyStep(prop string, s json.RawMessage) []json.RawMessage {
 	case "C10":
 		return simplifyC10Step(s)
 	case "C12", "C09", "C11":
+		if prop != "C11" && nodeLevelStep(s) {
+			return chainsim.SimplifyStep(s)
+		}
 		return simplifyHStep(s)
 	}
 	return simplifyLStep(s)
@@ -66,6 +92,10 @@ func (Engine) SimplifyConfig(prop string, c json.RawMessage) []json.RawMessage {
 		return simplifyC10Config(c)
 	case "C11":
 		return simplifyC11Config(c)
+	case "C09", "C12":
+		if nodeLevel(c) {
+			return chainsim.SimplifyConfig(c)
+		}
 	}
 	return nil
 }
